@@ -14,6 +14,15 @@ Definition isstep (e : event) : Prop := exists t a, e = EStep t a.
 Lemma isstep_notfin e : isstep e -> notfin e.
 Proof. intros [t [a ->]] k blk seed H. discriminate. Qed.
 
+Definition qstep (s : sys) (e : event) : Prop := isstep e /\ nowr s e.
+
+Lemma nowr_fail s t a : a_ok a = false -> nowr s (EStep t a).
+Proof. intros H t' a' st E _. inversion E; subst. exact H. Qed.
+Lemma nowr_env s e : (forall t a, e <> EStep t a) -> nowr s e.
+Proof. intros H t a st E. exfalso. eapply H; eauto. Qed.
+Lemma nowr_pc s t a : (forall st, wpc_of t s <> Some (WWriting st)) -> nowr s (EStep t a).
+Proof. intros H t' a' st E Hw. inversion E; subst. exfalso. eapply H; eauto. Qed.
+
 Lemma tstep_step cfg t a x x' : tstep cfg t a x = Some x' ->
   step cfg (x_sys x) (EStep t a) = Some (Ok (x_sys x')) /\ x_state x' = x_state x.
 Proof.
@@ -28,10 +37,10 @@ Proof.
   intros H; inversion H; subst. cbn. auto.
 Qed.
 
-Lemma advance_path cfg t a want fuel : forall x x' gx, advance cfg fuel t a want x = Some x' ->
-  exists gx', gpath cfg isstep (x_sys x) gx (x_sys x') gx' /\ want (x_sys x') = true /\ x_state x' = x_state x.
+Lemma advance_path cfg t a want fuel : a_ok a = false -> forall x x' gx, advance cfg fuel t a want x = Some x' ->
+  exists gx', gpath cfg qstep (x_sys x) gx (x_sys x') gx' /\ want (x_sys x') = true /\ x_state x' = x_state x.
 Proof.
-  induction fuel as [|f IH]; intros x x' gx H; cbn in H.
+  intros Ha. induction fuel as [|f IH]; intros x x' gx H; cbn in H.
   - destruct (want (x_sys x)) eqn:W; [|discriminate]. inversion H; subst. eexists. split; [constructor|auto].
   - destruct (want (x_sys x)) eqn:W.
     + inversion H; subst. eexists. split; [constructor|auto].
@@ -39,7 +48,56 @@ Proof.
       destruct (tstep_step _ _ _ _ _ T) as [Hs E1].
       destruct (IH _ _ (gstep (x_sys x) (EStep t a) (x_sys x1) gx) H) as [gx' [Hp [Hw E2]]].
       exists gx'. split; [|split; [exact Hw|congruence]].
-      econstructor; [exists t, a; reflexivity|exact Hs|exact Hp].
+      econstructor; [split; [exists t, a; reflexivity|apply nowr_fail; exact Ha]|exact Hs|exact Hp].
+Qed.
+
+(** the put loop on its way to NotifySyncStarting after a cancellation (answers "ctx.Done() is
+    ready"): an accepted advance never completes a state write on the way *)
+Definition is_notify (pc : ppc) : bool := match pc with PNotify _ => true | _ => false end.
+
+Lemma wpc_tp_writing s st : wpc_of TP s = Some (WWriting st) -> exists k, s_p s = PW k (WWriting st).
+Proof. unfold wpc_of. destruct (s_p s) as [| | | | | | | |k w|]; try discriminate. intros H; inversion H. eauto. Qed.
+
+Lemma pw_writing_ok_step cfg a x x' k st : s_p (x_sys x) = PW k (WWriting st) -> a_ok a = true ->
+  tstep cfg TP a x = Some x' -> s_p (x_sys x') = PW k WWritten.
+Proof.
+  intros Hp Ha T. destruct (tstep_step _ _ _ _ _ T) as [Hs _]. cbn [step] in Hs. unfold pstep in Hs.
+  rewrite Hp in Hs. cbn [wstep] in Hs. rewrite Ha in Hs. inversion Hs. reflexivity.
+Qed.
+
+Lemma pw_written_step cfg a x x' k : s_p (x_sys x) = PW k WWritten ->
+  tstep cfg TP a x = Some x' -> is_notify (s_p (x_sys x')) = false.
+Proof.
+  intros Hp T. destruct (tstep_step _ _ _ _ _ T) as [Hs _]. cbn [step] in Hs. unfold pstep in Hs.
+  rewrite Hp in Hs. cbn [wstep] in Hs. destruct (notify_state_written _); [|discriminate].
+  inversion Hs. cbn. destruct k; reflexivity.
+Qed.
+
+Lemma advance_cancel_path cfg x x' gx : advance cfg 2 TP cancel_ans (p_at is_notify) x = Some x' ->
+  exists gx', gpath cfg qstep (x_sys x) gx (x_sys x') gx' /\ is_notify (s_p (x_sys x')) = true /\ x_state x' = x_state x.
+Proof.
+  cbn [advance]. unfold p_at.
+  destruct (is_notify (s_p (x_sys x))) eqn:W0.
+  { intros H; inversion H; subst. eexists. split; [constructor|auto]. }
+  destruct (tstep cfg TP cancel_ans x) as [xa|] eqn:Ta; [|discriminate].
+  destruct (tstep_step _ _ _ _ _ Ta) as [Hsa Ea].
+  destruct (is_notify (s_p (x_sys xa))) eqn:Wa.
+  { intros H; inversion H; subst. eexists. split; [|auto].
+    apply gpath_one; [|exact Hsa]. split; [eexists _, _; reflexivity|].
+    intros t a st E Hw. inversion E; subst. exfalso. destruct (wpc_tp_writing _ _ Hw) as [k Hk].
+    rewrite (pw_writing_ok_step cfg cancel_ans _ _ _ _ Hk eq_refl Ta) in Wa. discriminate. }
+  destruct (tstep cfg TP cancel_ans xa) as [xb|] eqn:Tb; [|discriminate].
+  destruct (tstep_step _ _ _ _ _ Tb) as [Hsb Eb].
+  destruct (is_notify (s_p (x_sys xb))) eqn:Wb; [|discriminate].
+  intros H; inversion H; subst. eexists. split; [|split; [exact Wb|congruence]].
+  econstructor; [|exact Hsa|apply gpath_one; [|exact Hsb]].
+  - split; [eexists _, _; reflexivity|].
+    intros t a st E Hw. inversion E; subst. exfalso. destruct (wpc_tp_writing _ _ Hw) as [k Hk].
+    pose proof (pw_writing_ok_step cfg cancel_ans _ _ _ _ Hk eq_refl Ta) as Hka.
+    rewrite (pw_written_step _ _ _ _ _ Hka Tb) in Wb. discriminate.
+  - split; [eexists _, _; reflexivity|].
+    intros t a st E Hw. inversion E; subst. exfalso. destruct (wpc_tp_writing _ _ Hw) as [k Hk].
+    rewrite (pw_writing_ok_step cfg cancel_ans _ _ _ _ Hk eq_refl Tb) in Wb. discriminate.
 Qed.
 
 (** ---- what the entries the monitor reacts to did to the ghost ---- *)
@@ -51,11 +109,12 @@ Definition post (e : sx) (x : xst) (gx : gsys) (x' : xst) (gx' : gsys) : Prop :=
   (tag e = 13%Z -> sx_bool (sx_nth e 2) = true ->
      exists w, get_pend gx (tid_of (sx_Z (sx_nth e 1))) = Some w /\ gs_writes gx' = w :: gs_writes gx /\
                x_state x' = gw_state w) /\
-  (tag e = 13%Z -> sx_bool (sx_nth e 2) = false -> x_state x' = x_state x) /\
+  (tag e = 13%Z -> sx_bool (sx_nth e 2) = false -> x_state x' = x_state x /\ gs_writes gx' = gs_writes gx) /\
   (tag e = 18%Z -> s_p (x_sys x') = PExit) /\
   (tag e <> 13%Z -> x_state x' = x_state x).
 
-Definition allowed (e : sx) (ev : event) : Prop := tag e = 4%Z \/ notfin ev.
+Definition allowed (e : sx) (s : sys) (ev : event) : Prop :=
+  (tag e = 4%Z \/ notfin ev) /\ (tag e = 13%Z \/ nowr s ev).
 
 Definition sound (cfg : config) (e : sx) (x : xst) (gx : gsys) (x' : xst) : Prop :=
   exists gx', gpath cfg (allowed e) (x_sys x) gx (x_sys x') gx' /\ post e x gx x' gx'.
@@ -84,18 +143,24 @@ Lemma post13 e x gx x' gx' : tag e = 13%Z ->
   (sx_bool (sx_nth e 2) = true ->
      exists w, get_pend gx (tid_of (sx_Z (sx_nth e 1))) = Some w /\ gs_writes gx' = w :: gs_writes gx /\
                x_state x' = gw_state w) ->
-  (sx_bool (sx_nth e 2) = false -> x_state x' = x_state x) ->
+  (sx_bool (sx_nth e 2) = false -> x_state x' = x_state x /\ gs_writes gx' = gs_writes gx) ->
   post e x gx x' gx'.
-Proof. intros E H1 H2. unfold post. repeat split; intros; try congruence; auto. Qed.
+Proof.
+  intros E H1 H2. unfold post. repeat split; intros; try congruence; auto;
+  match goal with B : sx_bool _ = false |- _ => destruct (H2 B); assumption end.
+Qed.
 
 Lemma post18 e x gx x' gx' : tag e = 18%Z -> x_state x' = x_state x -> s_p (x_sys x') = PExit -> post e x gx x' gx'.
 Proof. intros E S H. unfold post. repeat split; intros; try congruence. Qed.
 
-Lemma path_steps_allowed cfg e s gx s' gx' : gpath cfg isstep s gx s' gx' -> gpath cfg (allowed e) s gx s' gx'.
-Proof. apply gpath_weaken. intros ev H. right. apply isstep_notfin. exact H. Qed.
+Lemma path_steps_allowed cfg e s gx s' gx' : gpath cfg qstep s gx s' gx' -> gpath cfg (allowed e) s gx s' gx'.
+Proof. apply gpath_weaken. intros s0 ev [H1 H2]. split; right; [apply isstep_notfin; exact H1|exact H2]. Qed.
 
-Lemma allowed_step e t a : allowed e (EStep t a).
-Proof. right. intros k b sd H. discriminate. Qed.
+Lemma allowed_step e s t a : nowr s (EStep t a) -> allowed e s (EStep t a).
+Proof. intros H. split; right; [intros k b sd Hc; discriminate|exact H]. Qed.
+
+Lemma allowed_fail e s t a : a_ok a = false -> allowed e s (EStep t a).
+Proof. intros H. apply allowed_step, nowr_fail, H. Qed.
 
 (** unfold the replay of an entry whose tag is known; the equation goes back into the goal *)
 Ltac open_tag H E := unfold replay_entry in H; rewrite E in H; cbv beta iota zeta in H; revert H.
@@ -105,18 +170,19 @@ Ltac ifg' := match goal with |- (if ?c then _ else _) = _ -> _ => destruct c eqn
 (** an accepted entry without post-obligation that is one environment event *)
 Lemma sound_env cfg e x gx x' ev :
   tag e <> 8%Z -> tag e <> 9%Z -> tag e <> 6%Z -> tag e <> 13%Z -> tag e <> 18%Z ->
-  allowed e ev -> env cfg x ev = Some x' -> sound cfg e x gx x'.
+  (tag e = 4%Z \/ notfin ev) -> (forall t a, ev <> EStep t a) -> env cfg x ev = Some x' -> sound cfg e x gx x'.
 Proof.
-  intros N8 N9 N6 N13 N18 Ha H. destruct (env_step _ _ _ _ H) as [Hs E].
-  eexists. split; [apply gpath_one; [exact Ha|exact Hs]|]. apply post_other; auto.
+  intros N8 N9 N6 N13 N18 Ha Hne H. destruct (env_step _ _ _ _ H) as [Hs E].
+  eexists. split; [apply gpath_one; [split; [exact Ha|right; apply nowr_env; exact Hne]|exact Hs]|].
+  apply post_other; auto.
 Qed.
 
 Lemma sound_tstep cfg e x gx x' t a :
   tag e <> 8%Z -> tag e <> 9%Z -> tag e <> 6%Z -> tag e <> 13%Z -> tag e <> 18%Z ->
-  tstep cfg t a x = Some x' -> sound cfg e x gx x'.
+  tstep cfg t a x = Some x' -> nowr (x_sys x) (EStep t a) -> sound cfg e x gx x'.
 Proof.
-  intros N8 N9 N6 N13 N18 H. destruct (tstep_step _ _ _ _ _ H) as [Hs E].
-  eexists. split; [apply gpath_one; [apply allowed_step|exact Hs]|].
+  intros N8 N9 N6 N13 N18 H Hn. destruct (tstep_step _ _ _ _ _ H) as [Hs E].
+  eexists. split; [apply gpath_one; [apply allowed_step; exact Hn|exact Hs]|].
   apply post_other; auto.
 Qed.
 
@@ -135,22 +201,25 @@ Variables (cfg : config) (bs : Z).
 Lemma replay_tag1 x e x' gx : tag e = 1%Z -> replay_entry cfg bs x e = Some x' -> sound cfg e x gx x'.
 Proof.
   intros E H. open_tag H E. ifg. intros H.
-  eapply (sound_env cfg e x gx x'); [tagne E|tagne E|tagne E|tagne E|tagne E| |exact H].
-  right. intros k b sd Hc. discriminate.
+  eapply (sound_env cfg e x gx x'); [tagne E|tagne E|tagne E|tagne E|tagne E| | |exact H].
+  - right. intros k b sd Hc. discriminate.
+  - intros t a Hc. discriminate.
 Qed.
 
 Lemma replay_tag2 x e x' gx : tag e = 2%Z -> replay_entry cfg bs x e = Some x' -> sound cfg e x gx x'.
 Proof.
   intros E H. open_tag H E. intros H.
-  eapply (sound_env cfg e x gx x'); [tagne E|tagne E|tagne E|tagne E|tagne E| |exact H].
-  right. intros k b sd Hc. discriminate.
+  eapply (sound_env cfg e x gx x'); [tagne E|tagne E|tagne E|tagne E|tagne E| | |exact H].
+  - right. intros k b sd Hc. discriminate.
+  - intros t a Hc. discriminate.
 Qed.
 
 Lemma replay_tag3 x e x' gx : tag e = 3%Z -> replay_entry cfg bs x e = Some x' -> sound cfg e x gx x'.
 Proof.
   intros E H. open_tag H E. intros H.
-  eapply (sound_env cfg e x gx x'); [tagne E|tagne E|tagne E|tagne E|tagne E| |exact H].
-  right. intros k b sd Hc. discriminate.
+  eapply (sound_env cfg e x gx x'); [tagne E|tagne E|tagne E|tagne E|tagne E| | |exact H].
+  - right. intros k b sd Hc. discriminate.
+  - intros t a Hc. discriminate.
 Qed.
 
 Lemma replay_tag4 x e x' gx : tag e = 4%Z -> replay_entry cfg bs x e = Some x' -> sound cfg e x gx x'.
@@ -159,17 +228,18 @@ Proof.
   destruct (nth_error _ _) as [[[tok size]|]|]; try discriminate.
   destruct (put_finalize _ _ _ _ _) as [[p' fr]|]; [|discriminate].
   ifg. ifg. intros H.
-  eapply (sound_env cfg e x gx x'); [tagne E|tagne E|tagne E|tagne E|tagne E| |exact H].
-  left. exact E.
+  eapply (sound_env cfg e x gx x'); [tagne E|tagne E|tagne E|tagne E|tagne E| | |exact H].
+  - left. exact E.
+  - intros t a Hc. discriminate.
 Qed.
 
 Lemma replay_tag5 x e x' gx : tag e = 5%Z -> replay_entry cfg bs x e = Some x' -> sound cfg e x gx x'.
 Proof.
   intros E H. open_tag H E. destruct (tid_of _).
   - destruct (s_r (x_sys x)); try discriminate. ifg. intros H.
-    eapply (sound_tstep cfg e x gx x'); [tagne E|tagne E|tagne E|tagne E|tagne E|exact H].
+    eapply (sound_tstep cfg e x gx x'); [tagne E|tagne E|tagne E|tagne E|tagne E|exact H|apply nowr_fail; reflexivity].
   - destruct (s_p (x_sys x)); try discriminate. ifg. intros H.
-    eapply (sound_tstep cfg e x gx x'); [tagne E|tagne E|tagne E|tagne E|tagne E|exact H].
+    eapply (sound_tstep cfg e x gx x'); [tagne E|tagne E|tagne E|tagne E|tagne E|exact H|apply nowr_fail; reflexivity].
 Qed.
 
 (** the step that calls GetPersistentState records the snapshot with the cohort of the latest
@@ -192,19 +262,19 @@ Proof.
   destruct (tstep _ _ _ x1) as [x2|] eqn:T; [|discriminate].
   destruct (thread_w _ _) as [[| |st| |]|]; try discriminate.
   ifg. intros H. inversion H; subst x'; clear H.
-  destruct (advance_path _ _ _ _ _ _ _ gx A) as [gx1 [P1 [W1 E1]]].
+  destruct (advance_path cfg _ no_ans _ _ eq_refl _ _ gx A) as [gx1 [P1 [W1 E1]]].
   destruct (tstep_step _ _ _ _ _ T) as [Hs E2].
   destruct (getstate_step _ no_ans _ (x_sys x2) gx1 W1) as [Hg [w [Hp Hc]]].
   exists (gstep (x_sys x1) (EStep (tid_of (sx_Z (sx_nth e 1))) no_ans) (x_sys x2) gx1). split.
   - eapply gpath_trans; [apply path_steps_allowed; exact P1|].
-    apply gpath_one; [apply allowed_step|exact Hs].
+    apply gpath_one; [apply allowed_fail; reflexivity|exact Hs].
   - apply post6; [exact E|congruence|]. exists w. split; [exact Hp|]. rewrite Hg. exact Hc.
 Qed.
 
 Lemma replay_tag7 x e x' gx : tag e = 7%Z -> replay_entry cfg bs x e = Some x' -> sound cfg e x gx x'.
 Proof.
   intros E H. open_tag H E. ifg. intros H.
-  eapply (sound_tstep cfg e x gx x'); [tagne E|tagne E|tagne E|tagne E|tagne E|exact H].
+  eapply (sound_tstep cfg e x gx x'); [tagne E|tagne E|tagne E|tagne E|tagne E|exact H|apply nowr_fail; reflexivity].
 Qed.
 
 Lemma replay_tag8 x e x' gx : tag e = 8%Z -> replay_entry cfg bs x e = Some x' -> sound cfg e x gx x'.
@@ -215,13 +285,13 @@ Proof.
     exists gx. cbn [x_sys]. split; [constructor|].
     apply post8; [exact E|reflexivity|rewrite B; discriminate|intros _; exact C].
   - destruct (advance _ _ _ _ _ _) as [x1|] eqn:A; [|discriminate]. intros H.
-    destruct (advance_path _ _ _ _ _ _ _ gx A) as [gx1 [P1 [W1 E1]]].
+    destruct (advance_cancel_path _ _ _ gx A) as [gx1 [P1 [W1 E1]]].
     destruct (tstep_step _ _ _ _ _ H) as [Hs E2].
     exists (gstep (x_sys x1) (EStep TP no_ans) (x_sys x') gx1). split.
     + eapply gpath_trans; [apply path_steps_allowed; exact P1|].
-      apply gpath_one; [apply allowed_step|exact Hs].
+      apply gpath_one; [apply allowed_fail; reflexivity|exact Hs].
     + apply post8; [exact E|congruence| |rewrite B; discriminate].
-      intros _. unfold p_at in W1. cbn [gstep]. destruct (s_p (x_sys x1)); try discriminate. reflexivity.
+      intros _. cbn [gstep]. destruct (s_p (x_sys x1)); try discriminate. reflexivity.
 Qed.
 
 Lemma replay_tag9 x e x' gx : tag e = 9%Z -> replay_entry cfg bs x e = Some x' -> sound cfg e x gx x'.
@@ -230,7 +300,7 @@ Proof.
   destruct (tstep _ _ _ x) as [x1|] eqn:T; [|discriminate]. intros H. inversion H; subst x'; clear H.
   destruct (tstep_step _ _ _ _ _ T) as [Hs E2]. cbn [x_sys x_state].
   exists (gstep (x_sys x) (EStep TP no_ans) (x_sys x1) gx). split.
-  - apply gpath_one; [apply allowed_step|exact Hs].
+  - apply gpath_one; [apply allowed_fail; reflexivity|exact Hs].
   - apply post9; [exact E|exact E2|].
     cbn [gstep]. rewrite Ep. destruct (negb keep && negb final); reflexivity.
 Qed.
@@ -243,8 +313,9 @@ Qed.
 
 Lemma replay_tag11 x e x' gx : tag e = 11%Z -> replay_entry cfg bs x e = Some x' -> sound cfg e x gx x'.
 Proof.
-  intros E H. open_tag H E. destruct (s_p (x_sys x)); try discriminate. intros H.
-  eapply (sound_tstep cfg e x gx x'); [tagne E|tagne E|tagne E|tagne E|tagne E|exact H].
+  intros E H. open_tag H E. destruct (s_p (x_sys x)) eqn:Ep; try discriminate. intros H.
+  eapply (sound_tstep cfg e x gx x'); [tagne E|tagne E|tagne E|tagne E|tagne E|exact H|].
+  apply nowr_pc. intros st. unfold wpc_of. rewrite Ep. discriminate.
 Qed.
 
 Lemma replay_tag12 x e x' gx : tag e = 12%Z -> replay_entry cfg bs x e = Some x' -> sound cfg e x gx x'.
@@ -275,11 +346,12 @@ Proof.
   destruct (tstep _ _ _ x) as [x1|] eqn:T; [|discriminate]. intros H. inversion H; subst x'; clear H.
   destruct (tstep_step _ _ _ _ _ T) as [Hs E2]. cbn [x_sys x_state].
   rewrite thread_w_wpc in Ew. destruct (PS _ _ Ew) as [w [Hp Hst]].
-  eexists. split; [apply gpath_one; [apply allowed_step|exact Hs]|].
+  exists (gstep (x_sys x) (EStep (tid_of (sx_Z (sx_nth e 1))) (mkAns (sx_bool (sx_nth e 2)) 0)) (x_sys x1) gx).
+  split; [apply gpath_one; [split; [right; intros k b sd Hc; discriminate|left; exact E]|exact Hs]|].
   apply post13; [exact E| |].
   - intros B. rewrite B. exists w. split; [exact Hp|]. split; [|symmetry; exact Hst].
     eapply write_ok_step; eauto.
-  - intros B. rewrite B. exact E2.
+  - intros B. rewrite B. split; [exact E2|]. apply gstep_writes_same. apply nowr_fail. reflexivity.
 Qed.
 
 Lemma replay_tag14 x e x' gx : tag e = 14%Z -> replay_entry cfg bs x e = Some x' -> sound cfg e x gx x'.
@@ -288,7 +360,7 @@ Proof.
   - destruct (s_r (x_sys x)) as [| |[| | | |d]]; try discriminate. ifg. intros H.
     inversion H; subst. apply sound_nil; try tagne E; reflexivity.
   - destruct (advance _ _ _ _ _ _) as [x1|] eqn:A; [|discriminate]. intros H.
-    destruct (advance_path _ _ _ _ _ _ _ gx A) as [gx1 [P1 [W1 E1]]].
+    destruct (advance_path cfg _ no_ans _ _ eq_refl _ _ gx A) as [gx1 [P1 [W1 E1]]].
     assert (x' = x1).
     { revert H. destruct (s_p (x_sys x1)) as [| | |d| | | |k f d|k [| | | |d]|]; try discriminate;
         ifg; intros H; inversion H; reflexivity. }
@@ -300,24 +372,26 @@ Lemma replay_tag15 x e x' gx : tag e = 15%Z -> replay_entry cfg bs x e = Some x'
 Proof.
   intros E H. open_tag H E. destruct (tid_of _).
   - destruct (s_r (x_sys x)) as [| |[| | | |d]]; try discriminate. intros H.
-    eapply (sound_tstep cfg e x gx x'); [tagne E|tagne E|tagne E|tagne E|tagne E|exact H].
+    eapply (sound_tstep cfg e x gx x'); [tagne E|tagne E|tagne E|tagne E|tagne E|exact H|apply nowr_fail; reflexivity].
   - destruct (s_p (x_sys x)) as [| | |d| | | |k f d|k [| | | |d]|]; try discriminate;
       ifg'; intros H;
-      (eapply (sound_tstep cfg e x gx x'); [tagne E|tagne E|tagne E|tagne E|tagne E|exact H]).
+      (eapply (sound_tstep cfg e x gx x'); [tagne E|tagne E|tagne E|tagne E|tagne E|exact H|apply nowr_fail; reflexivity]).
 Qed.
 
 Lemma replay_tag16 x e x' gx : tag e = 16%Z -> replay_entry cfg bs x e = Some x' -> sound cfg e x gx x'.
 Proof.
   intros E H. open_tag H E. intros H.
-  eapply (sound_env cfg e x gx x'); [tagne E|tagne E|tagne E|tagne E|tagne E| |exact H].
-  right. intros k b sd Hc. discriminate.
+  eapply (sound_env cfg e x gx x'); [tagne E|tagne E|tagne E|tagne E|tagne E| | |exact H].
+  - right. intros k b sd Hc. discriminate.
+  - intros t a Hc. discriminate.
 Qed.
 
 Lemma replay_tag17 x e x' gx : tag e = 17%Z -> replay_entry cfg bs x e = Some x' -> sound cfg e x gx x'.
 Proof.
   intros E H. open_tag H E. intros H.
-  eapply (sound_env cfg e x gx x'); [tagne E|tagne E|tagne E|tagne E|tagne E| |exact H].
-  right. intros k b sd Hc. discriminate.
+  eapply (sound_env cfg e x gx x'); [tagne E|tagne E|tagne E|tagne E|tagne E| | |exact H].
+  - right. intros k b sd Hc. discriminate.
+  - intros t a Hc. discriminate.
 Qed.
 
 Lemma replay_tag18 x e x' gx : tag e = 18%Z -> replay_entry cfg bs x e = Some x' -> sound cfg e x gx x'.
@@ -326,13 +400,13 @@ Proof.
   exists gx. split; [constructor|]. apply post18; [exact E|reflexivity|exact Ep].
 Qed.
 
-Lemma opt_tstep_path t a x gx :
-  exists gx1, gpath cfg isstep (x_sys x) gx (x_sys (match tstep cfg t a x with Some x' => x' | None => x end)) gx1 /\
+Lemma opt_tstep_path t a x gx : a_ok a = false ->
+  exists gx1, gpath cfg qstep (x_sys x) gx (x_sys (match tstep cfg t a x with Some x' => x' | None => x end)) gx1 /\
               x_state (match tstep cfg t a x with Some x' => x' | None => x end) = x_state x.
 Proof.
-  destruct (tstep cfg t a x) as [x'|] eqn:T.
+  intros Ha. destruct (tstep cfg t a x) as [x'|] eqn:T.
   - destruct (tstep_step _ _ _ _ _ T) as [Hs E]. eexists. split; [|exact E].
-    apply gpath_one; [exists t, a; reflexivity|exact Hs].
+    apply gpath_one; [split; [exists t, a; reflexivity|apply nowr_fail; exact Ha]|exact Hs].
   - exists gx. split; [constructor|reflexivity].
 Qed.
 
@@ -342,17 +416,17 @@ Proof.
   set (x1 := match s_p (x_sys x) with
              | PSelect _ => match tstep cfg TP no_ans x with Some x' => x' | None => x end
              | _ => x end).
-  assert (H1 : exists gx1, gpath cfg isstep (x_sys x) gx (x_sys x1) gx1 /\ x_state x1 = x_state x).
+  assert (H1 : exists gx1, gpath cfg qstep (x_sys x) gx (x_sys x1) gx1 /\ x_state x1 = x_state x).
   { subst x1. destruct (s_p (x_sys x)); try (exists gx; split; [constructor|reflexivity]).
-    apply opt_tstep_path. }
+    apply opt_tstep_path. reflexivity. }
   destruct H1 as [gx1 [P1 E1]].
   set (x2 := match s_r (x_sys x1) with
              | RWait ch => if is_closed (heap (s_pbl (x_sys x1))) ch
                            then match tstep cfg TR no_ans x1 with Some x' => x' | None => x1 end else x1
              | _ => x1 end).
-  assert (H2 : exists gx2, gpath cfg isstep (x_sys x1) gx1 (x_sys x2) gx2 /\ x_state x2 = x_state x1).
+  assert (H2 : exists gx2, gpath cfg qstep (x_sys x1) gx1 (x_sys x2) gx2 /\ x_state x2 = x_state x1).
   { subst x2. destruct (s_r (x_sys x1)); try (exists gx1; split; [constructor|reflexivity]).
-    destruct (is_closed _ _); [apply opt_tstep_path|exists gx1; split; [constructor|reflexivity]]. }
+    destruct (is_closed _ _); [apply opt_tstep_path; reflexivity|exists gx1; split; [constructor|reflexivity]]. }
   destruct H2 as [gx2 [P2 E2]].
   ifg. intros H. inversion H; subst x'. exists gx2. split.
   - apply path_steps_allowed. eapply gpath_trans; eauto.
